@@ -83,7 +83,7 @@ def r2_pure_restart(r, facts):
     if not r.require(re_ is not None, 'poll_inner/restart-edge', 'restart edge not found', f0.where()):
         return
     regs = fam.guard_regions(f0, 'shared')
-    live = regs[0]['live'] if len(regs) == 1 else set()
+    live = regs[0]['held'] if len(regs) == 1 else set()
     disp = life.dispatch_edges(f0, 'NotStarted')
     if not r.require(len(disp) == 1, 'poll_inner/dispatch', 'status dispatch not found', f0.where()):
         return
@@ -101,6 +101,13 @@ def r2_pure_restart(r, facts):
         for s in stores:
             r.require(f.edge_dominates(re_, s), 'poll_inner/notstarted-elsewhere', 'Status::NotStarted is stored outside the restart arm', f.where(s))
         region = f.reachable_locs(start, blockers=[header])
+        if not ms:
+            # single-shot: get_resources *moves* the resources out of the state (ptr::read); a path that has
+            # read them out must hand them to map_ok/fallback and return, never go on to the restart
+            for l, t in life.param_calls(f, 'get_resources'):
+                tgt = f.at(l).get('target')
+                hit = f.forward_paths_hit([Loc(tgt, 0)], stores) if tgt is not None else None
+                r.require(hit is None, 'poll_inner/restart-after-readout', 'the resources are read out of the operation state (get_resources) on a path that goes on to restart the operation: they are dropped while the re-issued request still uses them, and dropped again later', f.where(l))
         bad_calls = [l for l, t in life.param_calls(f, 'get_resources') + life.param_calls(f, 'map_ok') + life.param_calls(f, 'fallback')]
         bad_calls += [l for l, t in f.calls() if (t.get('callee') or '').endswith('::drop_in_place')]
         for l in bad_calls:
